@@ -347,7 +347,7 @@ func RunCheck(opts CheckOpts) *CheckReport {
 			sem <- struct{}{}
 			defer func() { <-sem }()
 			t := time.Now()
-			ans := Solve(o.Query, o.Name, SolverCfg{Timeout: opts.Timeout, Seed: opts.Seed, WorkDir: work, All: opts.Tier == "thorough"})
+			ans := Solve(o.Query, o.Name, SolverCfg{Timeout: opts.Timeout, Seed: opts.Seed, WorkDir: work, All: opts.Tier == "thorough", Order: o.Order})
 			if o.Expect == "unsat" && ans.Result == "sat" && len(o.Refine) > 0 {
 				// counterexample refinement: re-solve with the exact facts that were abstracted for the proof
 				q2 := *o.Query
